@@ -231,9 +231,10 @@ impl<'p> CoroutinePool<'p> {
     }
 
     fn do_clean(&mut self) {
-        // clean up remaining wait tasks
-        for r in &self.waits {
-            let task_id = *r.key();
+        // clean up remaining wait tasks, notify removes from waits,
+        // which must not happen while iterating waits
+        let task_ids: Vec<u64> = self.waits.iter().map(|r| *r.key()).collect();
+        for task_id in task_ids {
             _ = self
                 .results
                 .insert(task_id, Err("The coroutine pool has stopped"));
